@@ -79,7 +79,8 @@ ASSUMPTIONS = [
 ]
 RULE = ("one case = one real generator call (mask or return_acs), one real `_poisson` kernel call, or one kernel/helper call "
         "compared with the model; generators x modes x ranks 3..5 x rows/cols from {8..80} incl. odd, even, non-square, single "
-        "frame; oracle additionally: argument forms (shape as tuple/list/torch.Size/ndarray, positional/keyword, mode and CIRCUS "
+        "frame, and the axis-length coincidence classes frames==rows, frames==cols, rows==cols, lead==rows, all-equal for every "
+        "generator and mode (correspondence and oracle); oracle additionally: argument forms (shape as tuple/list/torch.Size/ndarray, positional/keyword, mode and CIRCUS "
         "scheme as enum/string), 10-call histories on one object sharing some but not all of (seed, rank, rows, cols, frames, "
         "return_acs), an edge-seed ladder for every generator and mode (0, 1, 2^31-2 … 2^32-1, 2^32, -1, numpy integers, tuples/lists "
         "with large entries; mask and ACS; judged: contract shape or ValueError, never another exception), the real callers (CreateSamplingMask, apply_mask, config-driven build with and without mode); "
